@@ -223,6 +223,8 @@ def qobs(q, Pm, vis=None):
             else:
                 vals = va[sel]
             d['values'] = (va.dtype.str, np.ascontiguousarray(vals).tobytes()) if vals.size else ('', b'')
+            if not vals.size:
+                d['dtype'] = ''       # the numeric kind is observable only through the value of an unmasked element
         else:
             d['values'] = ('malformed', str(va.shape))
         dv = {}
@@ -244,6 +246,8 @@ def obs(x, Pm, depth=0):
     if isinstance(x, np.ma.MaskedArray):
         m = np.ma.getmaskarray(x)
         data = np.asarray(x.data)
+        if data.dtype == object:        # the bytes of an object array are addresses, not content
+            return ('MAO', tuple(data.shape), m.tobytes(), tuple(obs(e, Pm, depth + 1) for e in data[~m].ravel()))
         return ('MA', data.dtype.str, tuple(data.shape), m.tobytes(), np.ascontiguousarray(data[~m]).tobytes())
     if isinstance(x, np.ndarray):
         if x.dtype == object:
@@ -293,8 +297,8 @@ def outcome(ev, Pm):
     return out
 
 
-_KEY_ORDER = {'ok': 0, 'exc': 1, 'error': 2, 'T': 3, 'shape': 4, 'numer': 5, 'denom': 6, 'dtype': 7, 'units': 8,
-              'readonly': 9, 'mask': 10, 'values': 11, 'derivs': 12, 'result': 20, 'after': 30}
+_KEY_ORDER = {'ok': 0, 'exc': 1, 'error': 2, 'T': 3, 'shape': 4, 'numer': 5, 'denom': 6, 'units': 8,
+              'readonly': 9, 'mask': 10, 'dtype': 10.5, 'values': 11, 'derivs': 12, 'result': 20, 'after': 30}
 
 
 def first_diff(a, b, path=''):
